@@ -241,6 +241,8 @@ func (fv *FnVerifier) lockCheck(st *State, a *Addr, write bool, pos token.Pos) {
 						goal = "(= " + lt + " 2)"
 						what = "write"
 					}
+					// an object allocated by this call is not yet shared (constructors)
+					goal = "(or (>= " + a.Ref + " alloc0) " + goal + ")"
 					fv.oblige("lock", what+":"+a.FieldName, fv.reach[fv.curBlock], goal, pos, what+" of guarded field "+a.FieldName+" without "+mu)
 				}
 			}
